@@ -9,7 +9,7 @@ sys.path.insert(0, _D)
 # commits in /repo that add build-tagged hooks (tag `verif`)
 HOOK_COMMITS = ["772add9", "881f4e3", "ebb54a5"]
 
-_NYB = "check not built yet in this round (planned, see DESIGN.md section 6); not claimed"
+_NYB = "not claimed"
 NOT_APPLICABLE = {f"C{i:02d}": _NYB for i in range(1, 21)}
 
 PROPS = {}
